@@ -93,4 +93,19 @@ def title (s : String) : String := String.ofList (titleL s.toList)
 
 def pascal : Style := { case := .pascal }
 
+/-- Python `sep.join(parts)` -/
+def joinS (sep : String) : List String → String
+  | [] => ""
+  | [x] => x
+  | x :: y :: rest => x ++ sep ++ joinS sep (y :: rest)
+
+/-- concatenation (`"".join(parts)`) -/
+def concatS : List String → String
+  | [] => ""
+  | x :: xs => x ++ concatS xs
+
+/-- `head<a₁, …, aₙ>` when there are type arguments (all four targets write generics this way) -/
+def applyArgs (head : String) (args : List String) : String :=
+  if args.isEmpty then head else head ++ "<" ++ joinS ", " args ++ ">"
+
 end Pydjinni.Gen
